@@ -1,3 +1,38 @@
-From YV Require Import PyBase Token.
-Example c12_smoke : skip_space [] = [].
+(* C12 -- multi-language mode assigns every word to exactly one part of the
+   right language.  Only statements here, closed by `exact`.  Model:
+   coq/model/Ml.v (utils.get_txt_pos_ml).
+
+   Proved for every token stream: language tokens only cut the stream -- the
+   sections together hold exactly the text and the positions of the stream
+   (nothing lost, nothing twice, order kept), which is what the
+   single-language run returns; every part has as many positions as
+   characters, and the positions of the parts (placeholders included) are
+   positions of the stream.  Not proved: that the language label of a
+   section is the language in force (the stack discipline of
+   \selectlanguage, \foreignlanguage, otherlanguage) and the threshold rule
+   for short insertions; compared with the implementation and decided by the
+   oracle of harness/props/c12.py on the C12 stream. *)
+From YV Require Import PyBase Token Utils Ml MlProofs.
+Open Scope Z_scope.
+
+Theorem C12_sections_conserve : forall toks stack back brk cur secs,
+  let r := sections toks stack back brk cur secs in
+  let g := get_txt_pos (rev cur ++ filter not_lang toks) in
+  all_txt r = all_txt secs ++ fst g /\ all_pos r = all_pos secs ++ snd g.
+Proof. exact sections_conserve. Qed.
+Print Assumptions C12_sections_conserve.
+
+Theorem C12_parts_positions : forall is_space check_lang thresh (R : Z -> Prop) toks main rot res,
+  Forall (tok_R R) toks ->
+  get_txt_pos_ml is_space check_lang thresh toks main rot = Ok res ->
+  Forall (fun e => Forall (fun tp => length (fst tp) = length (snd tp)
+                                     /\ Forall R (snd tp)) (snd e)) res.
+Proof. exact get_txt_pos_ml_lengths. Qed.
+Print Assumptions C12_parts_positions.
+
+Example C12_nonvacuous :
+  let a := mk KText 0 [97]%N false in let b := mk KText 5 [98]%N false in
+  let l := LangT 3 [100; 101]%N false false false in
+  map (fun s => (s_lang s, s_txt s, s_pos s)) (sections [a; l; b] [[101; 110]%N] false false [] [])
+  = [([101; 110]%N, [97]%N, [0]); ([100; 101]%N, [98]%N, [5])].
 Proof. reflexivity. Qed.
